@@ -6,6 +6,8 @@
 //! exit: 0 property held on everything explored (or only listed known findings),
 //!       1 violation (a `VIOLATION property=.. replay=..` line is printed),
 //!       2 machinery error (never a verdict).
+#![allow(dead_code, private_interfaces, unused_mut)]
+
 
 mod bind;
 mod draws;
